@@ -1,6 +1,6 @@
 import Prism.Proofs.C11
-open Prism.Race
-#print axioms C11_summary_ok
-#print axioms C11_no_shared_writes_in_workers
-#print axioms C11_guarded_reads_ordered
-#print axioms C11_fastpath_race
+
+#print axioms Prism.Race.C11_summary_ok
+#print axioms Prism.Race.C11_no_shared_writes_in_workers
+#print axioms Prism.Race.C11_guarded_reads_ordered
+#print axioms Prism.Race.C11_fastpath_race
